@@ -47,10 +47,10 @@ type c19Case struct {
 func (c c19Case) encode() string {
 	var fs []string
 	for _, f := range c.files {
-		fs = append(fs, esc(f.name), esc(strings.Join(f.lines, "\n")+"\n"))
+		fs = append(fs, vesc(f.name), vesc(strings.Join(f.lines, "\n")+"\n"))
 	}
 	return fmt.Sprintf("sched=%d;cmd=%s;kind=%s;ndir=%d;ndays=%d;args=%s;files=%s",
-		c.sched, c.cmd, c.kind, c.ndir, c.ndays, esc(strings.Join(c.args, " ")), strings.Join(fs, "|"))
+		c.sched, c.cmd, c.kind, c.ndir, c.ndays, vesc(strings.Join(c.args, " ")), strings.Join(fs, "|"))
 }
 
 func c19Decode(in string) (kv map[string]string, files [][2]string) {
@@ -62,7 +62,7 @@ func c19Decode(in string) (kv map[string]string, files [][2]string) {
 	}
 	parts := strings.Split(kv["files"], "|")
 	for i := 0; i+1 < len(parts); i += 2 {
-		files = append(files, [2]string{unesc(parts[i]), unesc(parts[i+1])})
+		files = append(files, [2]string{vunesc(parts[i]), vunesc(parts[i+1])})
 	}
 	return
 }
@@ -240,7 +240,7 @@ var c19Frame = regexp.MustCompile(`(?m)^(?:Write|Read|Previous write|Previous re
 
 var c19DirectiveLine = regexp.MustCompile(`(?m)^\d{4}-\d{2}-\d{2} `)
 
-func c19Run(bin string, in string, withTrace bool) (res runResult, tracePath, dir string) {
+func c19Run(bin string, in string, withTrace bool) (res vRunResult, tracePath, dir string) {
 	kv, files := c19Decode(in)
 	dir = c19WriteFiles(files)
 	tracePath = filepath.Join(dir, "verif.trace")
@@ -249,7 +249,7 @@ func c19Run(bin string, in string, withTrace bool) (res runResult, tracePath, di
 		env = append(env, "KNUT_VERIF_TRACE="+tracePath)
 	}
 	argv := []string{bin, kv["cmd"]}
-	if a := unesc(kv["args"]); a != "" {
+	if a := vunesc(kv["args"]); a != "" {
 		argv = append(argv, strings.Fields(a)...)
 	}
 	argv = append(argv, filepath.Join(dir, "root.knut"))
